@@ -1,4 +1,5 @@
 import JobShopProofs.Properties.C17
+import JobShopProofs.CpLemmas
 /-!
 # Edge types: the last insertion decides
 
@@ -188,5 +189,159 @@ theorem addConjunctive_typed (I : Instance) (a b : Nat) : ∀ (js : List Nat) (g
             exact ih _ (ginv_addEdge h0 _ _ _) (by rw [addEdge_present]; exact h1) (by rw [addEdge_present]; exact h2)
         obtain ⟨k1, k2, k3⟩ := key ((nodesByJob I j).zip (nodesByJob I j).tail) g hg ha hb
         exact addConjunctive_typed I a b js _ k1 k2 k3 (Or.inr ⟨j', hj'', hmem⟩)
+
+end JS
+
+namespace JS
+
+/-- no node of the graph is removed (true of every graph while it is being built) -/
+def NoRemoved (g : Graph) : Prop := ∀ k, k < g.nodes.length → g.removed.getD k true = false
+
+theorem noRemoved_addNode {g : Graph} (hg : GInv g) (h : NoRemoved g) (k : NodeKind) : NoRemoved (g.addNode k) := by
+  intro i hi
+  simp only [Graph.addNode, List.length_append, List.length_singleton] at hi ⊢
+  by_cases hlt : i < g.nodes.length
+  · rw [getD_append_lt _ _ _ _ (by rw [hg.lenR]; exact hlt)]; exact h i hlt
+  · have : i = g.removed.length := by rw [hg.lenR]; omega
+    subst this
+    simp [List.getD_eq_getElem?_getD]
+
+theorem noRemoved_addEdge {g : Graph} (h : NoRemoved g) (x y : Nat) (t : EType) : NoRemoved (g.addEdge x y t) := by
+  intro i hi
+  rw [addEdge_nodes] at hi
+  have : (g.addEdge x y t).removed = g.removed := by unfold Graph.addEdge; split <;> rfl
+  rw [this]; exact h i hi
+
+theorem noRemoved_foldl {α} (f : Graph → α → Graph)
+    (hf : ∀ g a, GInv g → NoRemoved g → GInv (f g a) ∧ NoRemoved (f g a)) :
+    ∀ (l : List α) (g : Graph), GInv g → NoRemoved g → GInv (l.foldl f g) ∧ NoRemoved (l.foldl f g)
+  | [], _, h1, h2 => ⟨h1, h2⟩
+  | a :: t, g, h1, h2 => by
+    simp only [List.foldl_cons]
+    obtain ⟨a1, a2⟩ := hf g a h1 h2
+    exact noRemoved_foldl f hf t _ a1 a2
+
+theorem present_of_noRemoved {g : Graph} (h : NoRemoved g) {a : Nat} (ha : a < g.nodes.length) : g.present a = true := by
+  have := h a ha
+  simp only [Graph.present, Bool.and_eq_true, decide_eq_true_eq, Bool.not_eq_true']
+  exact ⟨ha, this⟩
+
+theorem mem_edges_iff (g : Graph) (u v : Nat) (t : EType) :
+    (u, v, t) ∈ g.edges ↔ u < g.nodes.length ∧ g.present u = true ∧ (v, t) ∈ g.adj.getD u [] := by
+  simp only [Graph.edges, List.mem_flatMap, List.mem_range]
+  constructor
+  · rintro ⟨w, hw, hmem⟩
+    by_cases hp : g.present w = true
+    · rw [if_pos hp] at hmem
+      simp only [List.mem_map, Prod.mk.injEq] at hmem
+      obtain ⟨e, he, rfl, rfl, rfl⟩ := hmem
+      exact ⟨hw, hp, he⟩
+    · rw [if_neg hp] at hmem; cases hmem
+  · rintro ⟨hu, hp, hmem⟩
+    refine ⟨u, hu, ?_⟩
+    rw [if_pos hp]
+    exact List.mem_map.2 ⟨(v, t), hmem, rfl⟩
+
+theorem zip_tail_mem_range_map (f : Nat → Nat) (n p : Nat) (hp : p + 1 < n) :
+    (f p, f (p + 1)) ∈ ((List.range n).map f).zip ((List.range n).map f).tail := by
+  rw [List.mem_iff_getElem?]
+  refine ⟨p, ?_⟩
+  rw [List.getElem?_zip_eq_some]
+  constructor
+  · simp [List.getElem?_range (by omega : p < n)]
+  · rw [List.getElem?_tail]
+    simp [List.getElem?_range (by omega : p + 1 < n)]
+
+/-- **C16 (job-chain edges are conjunctive).** In `build_disjunctive_graph(I)`, for every two consecutive operations of
+a job the edge from the earlier to the later one exists, is typed conjunctive, and carries no other type — also when
+both run on the same machine, where a disjunctive edge between them had been added first. -/
+theorem C16_conjunctive_typed (I : Instance) (j p : Nat) (hp : p + 1 < (I.getD j []).length) (hj : j < I.length) :
+    let g := buildDisjunctive I
+    let a := opId I (j, p)
+    let b := opId I (j, p + 1)
+    (a, b, EType.conjunctive) ∈ g.edges ∧ ∀ t, (a, b, t) ∈ g.edges → t = .conjunctive := by
+  intro g a b
+  -- the operations are nodes of the graph
+  have hjj : I[j]? = some (I.getD j []) := by simp [List.getD_eq_getElem?_getD, List.getElem?_eq_getElem hj]
+  have hmemA : (j, p) ∈ allOps I := by
+    rw [mem_allOps']
+    simp only [getOp, hjj, Option.bind_some]
+    rw [List.getElem?_eq_getElem (by omega)]; rfl
+  have hmemB : (j, p + 1) ∈ allOps I := by
+    rw [mem_allOps']
+    simp only [getOp, hjj, Option.bind_some]
+    rw [List.getElem?_eq_getElem hp]; rfl
+  have ha : a < numOps I := opId_lt hmemA
+  have hb : b < numOps I := opId_lt hmemB
+  -- phase 0/1: operation nodes, disjunctive edges
+  have h0 : GInv (opNodesGraph I) ∧ NoRemoved (opNodesGraph I) := by
+    unfold opNodesGraph
+    exact noRemoved_foldl _ (fun g i hg hn => ⟨ginv_addNode hg _, noRemoved_addNode hg hn _⟩) _ _ ginv_empty
+      (by intro k hk; simp at hk)
+  have hn0 : (opNodesGraph I).nodes.length = numOps I := by rw [opNodesGraph_nodes]; simp
+  have h1 : GInv (addDisjunctiveEdges I (opNodesGraph I)) ∧ NoRemoved (addDisjunctiveEdges I (opNodesGraph I)) := by
+    unfold addDisjunctiveEdges
+    exact noRemoved_foldl _ (fun g m hg hn => noRemoved_foldl _ (fun g ab hg hn =>
+      ⟨ginv_addBoth hg _ _ _, by unfold addBoth; exact noRemoved_addEdge (noRemoved_addEdge hn _ _ _) _ _ _⟩) _ _ hg hn)
+      _ _ h0.1 h0.2
+  have hn1 : (addDisjunctiveEdges I (opNodesGraph I)).nodes.length = numOps I := by
+    rw [addDisjunctiveEdges_nodes]; exact hn0
+  -- phase 2: conjunctive edges
+  have hin : (a, b) ∈ (nodesByJob I j).zip (nodesByJob I j).tail :=
+    zip_tail_mem_range_map (fun q => opId I (j, q)) _ p hp
+  obtain ⟨t2, g2inv, pa2, pb2⟩ := addConjunctive_typed I a b (List.range I.length) _ h1.1
+    (present_of_noRemoved h1.2 (by rw [hn1]; exact ha)) (present_of_noRemoved h1.2 (by rw [hn1]; exact hb))
+    (Or.inr ⟨j, List.mem_range.2 hj, hin⟩)
+  rw [← addConjunctiveEdges_eq] at t2 g2inv pa2 pb2
+  have hgdef : g = addSourceSink I (addConjunctiveEdges I (addDisjunctiveEdges I (opNodesGraph I))) := rfl
+  generalize addConjunctiveEdges I (addDisjunctiveEdges I (opNodesGraph I)) = g2 at t2 g2inv pa2 pb2 hgdef
+  have ha2 : a < g2.nodes.length := by
+    simp only [Graph.present, Bool.and_eq_true, decide_eq_true_eq] at pa2; exact pa2.1
+  -- phase 3: source and sink; every insertion is conjunctive
+  have hfinal : Typed (addSourceSink I g2) a b .conjunctive ∧ (addSourceSink I g2).present a = true := by
+    unfold addSourceSink
+    simp only
+    have g3inv := ginv_addNode (ginv_addNode g2inv .source) .sink
+    have t3 : Typed ((g2.addNode .source).addNode .sink) a b .conjunctive :=
+      addNode_typed _ (ginv_addNode g2inv _) _ a b _ (by simp [Graph.addNode]; omega)
+        (addNode_typed _ g2inv _ a b _ ha2 t2)
+    have pa3 := addNode_present _ (ginv_addNode g2inv .source) .sink a (addNode_present _ g2inv .source a pa2)
+    have pb3 := addNode_present _ (ginv_addNode g2inv .source) .sink b (addNode_present _ g2inv .source b pb2)
+    generalize (g2.addNode .source).addNode .sink = g3 at g3inv t3 pa3 pb3
+    have key : ∀ (js : List Nat) (g0 : Graph), GInv g0 → Typed g0 a b .conjunctive → g0.present a = true →
+        g0.present b = true →
+        let r := js.foldl (fun g j =>
+          match (nodesByJob I j).head?, (nodesByJob I j).getLast? with
+          | some x, some y => (g.addEdge g2.nodes.length x .conjunctive).addEdge y (g2.nodes.length + 1) .conjunctive
+          | _, _ => g) g0
+        Typed r a b .conjunctive ∧ r.present a = true := by
+      intro js
+      induction js with
+      | nil => intro g0 _ ht hpa _; exact ⟨ht, hpa⟩
+      | cons j' js ih =>
+        intro g0 hg0 ht hpa hpb
+        simp only [List.foldl_cons]
+        cases hh : (nodesByJob I j').head? with
+        | none => simp only; exact ih g0 hg0 ht hpa hpb
+        | some x =>
+          cases hl : (nodesByJob I j').getLast? with
+          | none => simp only; exact ih g0 hg0 ht hpa hpb
+          | some y =>
+            simp only
+            have e1 := addEdge_typed_same g0 hg0 g2.nodes.length x a b .conjunctive hpa hpb ht
+            have g1inv := ginv_addEdge hg0 g2.nodes.length x .conjunctive
+            have pa1 : (g0.addEdge g2.nodes.length x .conjunctive).present a = true := by rw [addEdge_present]; exact hpa
+            have pb1 : (g0.addEdge g2.nodes.length x .conjunctive).present b = true := by rw [addEdge_present]; exact hpb
+            have e2 := addEdge_typed_same _ g1inv y (g2.nodes.length + 1) a b .conjunctive pa1 pb1 e1
+            exact ih _ (ginv_addEdge g1inv _ _ _) e2 (by rw [addEdge_present]; exact pa1) (by rw [addEdge_present]; exact pb1)
+    exact key (List.range I.length) g3 g3inv t3 pa3 pb3
+  rw [← hgdef] at hfinal
+  obtain ⟨⟨hhas, honly⟩, hpres⟩ := hfinal
+  have hlt : a < g.nodes.length := by
+    simp only [Graph.present, Bool.and_eq_true, decide_eq_true_eq] at hpres; exact hpres.1
+  constructor
+  · exact (mem_edges_iff g a b .conjunctive).2 ⟨hlt, hpres, hhas⟩
+  · intro t ht
+    exact honly t ((mem_edges_iff g a b t).1 ht).2.2
 
 end JS
